@@ -484,7 +484,7 @@ func CLIPrintIdentity(p *core.Program, r *core.Report, rule string) {
 	r.Floor(rule, 8)
 }
 
-// opensFile: the cli function (transitively within package cli) calls os.Create / os.OpenFile / os.WriteFile.
+// opensFile: the cli function (transitively within package cli and the module's shared internal helpers) calls os.Create / os.OpenFile / os.WriteFile.
 func opensFile(p *core.Program, f *ssa.Function) bool {
 	seen := map[*ssa.Function]bool{}
 	var rec func(f *ssa.Function) bool
@@ -500,7 +500,8 @@ func opensFile(p *core.Program, f *ssa.Function) bool {
 					if pkg == "os" && (name == "Create" || name == "OpenFile" || name == "WriteFile") {
 						return true
 					}
-					if cal := ci.Common().StaticCallee(); cal != nil && cal.Pkg != nil && cal.Pkg.Pkg.Path() == core.PkgCLI && rec(cal) {
+					// within package cli, and one step into a shared writer of the module (pkg/internal/...)
+					if cal := ci.Common().StaticCallee(); cal != nil && cal.Pkg != nil && (cal.Pkg.Pkg.Path() == core.PkgCLI || strings.HasPrefix(cal.Pkg.Pkg.Path(), core.ModPath+"/pkg/internal/")) && rec(cal) {
 						return true
 					}
 				}
@@ -525,6 +526,58 @@ func CLIFileWriter(p *core.Program, r *core.Report, rule string) {
 		return
 	}
 	pathP, bufP := sig.Params().At(0), sig.Params().At(1)
+	key := fd.Key()
+	// the helper may hand its two parameters on to a shared file writer of the module: that function is then the one
+	// that creates the file and writes the buffer (the delegating call's error has to be returned)
+	for hop := 0; hop < 2; hop++ {
+		var deleg *ast.CallExpr
+		var dfd *core.FuncDecl
+		var pi, bi int
+		hasOS := false
+		ast.Inspect(fd.Decl.Body, func(n ast.Node) bool {
+			c, ok := n.(*ast.CallExpr)
+			if !ok {
+				return true
+			}
+			fn := core.Callee(info, c)
+			if fn == nil || fn.Pkg() == nil {
+				return true
+			}
+			if fn.Pkg().Path() == "os" {
+				hasOS = true
+			}
+			if h := p.ByObj[fn]; h != nil && p.IsModuleFunc(fn) {
+				a, b := -1, -1
+				for i, arg := range c.Args {
+					x := ast.Unparen(arg)
+					if cv, isCv := x.(*ast.CallExpr); isCv && core.IsConversion(info, cv) && len(cv.Args) == 1 {
+						x = ast.Unparen(cv.Args[0])
+					}
+					if id, isID := x.(*ast.Ident); isID {
+						if info.ObjectOf(id) == pathP {
+							a = i
+						}
+						if info.ObjectOf(id) == bufP {
+							b = i
+						}
+					}
+				}
+				hs := fn.Type().(*types.Signature)
+				if a >= 0 && b >= 0 && a < hs.Params().Len() && b < hs.Params().Len() {
+					deleg, dfd, pi, bi = c, h, a, b
+				}
+			}
+			return true
+		})
+		if hasOS || deleg == nil {
+			break
+		}
+		ok, why := propagates(p, fd, deleg)
+		r.Check(ok, rule, fd.Key()+": the error of the shared file writer is returned", p.Pos(deleg.Pos()), why, "the error of the write is lost ("+why+"): exit status 0 with an incomplete file")
+		hs := dfd.Obj.Type().(*types.Signature)
+		fd, info, sig = dfd, dfd.Pkg.TypesInfo, hs
+		pathP, bufP = hs.Params().At(pi), hs.Params().At(bi)
+	}
 	osConst := func(name string) int64 {
 		for _, imp := range fd.Pkg.Types.Imports() {
 			if imp.Path() == "os" {
@@ -598,11 +651,11 @@ func CLIFileWriter(p *core.Program, r *core.Report, rule string) {
 		}
 		return true
 	})
-	r.Check(openOK, rule, fd.Key()+": the file named by its first parameter is created or truncated for writing", p.Pos(fd.Decl.Pos()), "os.Create / O_TRUNC|O_CREATE / os.WriteFile", openWhy)
-	r.Check(writeOK, rule, fd.Key()+": the whole buffer parameter is written", p.Pos(fd.Decl.Pos()), "Write(buf)", "the helper does not write its whole buffer parameter (sliced, transformed, or not written)")
+	r.Check(openOK, rule, key+": the file named by its first parameter is created or truncated for writing", p.Pos(fd.Decl.Pos()), "os.Create / O_TRUNC|O_CREATE / os.WriteFile", openWhy)
+	r.Check(writeOK, rule, key+": the whole buffer parameter is written", p.Pos(fd.Decl.Pos()), "Write(buf)", "the helper does not write its whole buffer parameter (sliced, transformed, or not written)")
 	if writeCall != nil {
 		ok, why := propagates(p, fd, writeCall)
-		r.Check(ok, rule, fd.Key()+": a write error is returned", p.Pos(writeCall.Pos()), why, "the error of the write is lost ("+why+"): exit status 0 with an incomplete file")
+		r.Check(ok, rule, key+": a write error is returned", p.Pos(writeCall.Pos()), why, "the error of the write is lost ("+why+"): exit status 0 with an incomplete file")
 	}
 }
 
